@@ -138,6 +138,17 @@ impl Sink {
 	}
 }
 
+/// Runs one work item; an assertion of the harness failing inside it (the real code returned something the
+/// harness did not expect) is reported as a violation instead of aborting the whole run.
+pub fn item_guard(label: &str, f: impl FnOnce()) {
+	util::install_panic_hook();
+	if let util::Outcome::Panic(p) = util::guard_plain(f) {
+		let line = json!({"t": "viol", "check": "harness_assert", "class": label, "kind": "mismatch",
+			"detail": format!("an expectation of the harness about the code's result failed: {}", p), "replay": ""});
+		println!("{}", line);
+	}
+}
+
 /// Runs `f` over the tagged lines of a TLC output file on `threads` threads.
 pub fn for_each_tagged<F>(path: &str, tag: &str, threads: usize, stride: usize, max: usize, f: F) -> usize
 where
@@ -178,7 +189,7 @@ where
 					}
 				};
 				if let Some((_, v)) = parse_tlc_line(&line) {
-					f(idx, v);
+					item_guard(tag, || f(idx, v));
 				}
 			});
 		}
